@@ -7,7 +7,8 @@ PROPERTY = 'C15'
 LEVEL = 'exploration'
 RULE = ('models: regression catalogue + exhaustive enumeration (all models with <= 3 particles over {a,b} x the full '
         'occurrence vocabulary, element / wildcard / substitution-head leaves; 4 particles over a reduced vocabulary; '
-        'thorough runs all of it, quick a seed-rotated slice) + seeded random nested models (depth <= 3) + EDC variants '
+        'thorough runs all of it, quick a seed-rotated slice) + all pairs of wildcards over nine namespace constraints (lists, '
+        'notNamespace) + seeded random nested models (depth <= 3) + EDC variants '
         '(two same-named element particles with equal / different types); each model is built strictly by XMLSchema10 and '
         'XMLSchema11 and the outcome (built / XMLSchemaModelError) is compared with an independent determinism decision '
         '(position automaton with unrolled occurrence ranges, and derivative-automaton exploration over marked symbols, '
